@@ -249,6 +249,11 @@ def check_soap(msg, msgtype, binding):
     if binding == BINDING_PAOS:
         from saml2_tophat.profile import ecp
         kw['soap_headers'] = [ecp.RelayState(actor='http://schemas.xmlsoap.org/soap/actor/next', must_understand='1', text='rs<&>')]
+    if binding == BINDING_PAOS:
+        # a first packaging with another RelayState header, then the one that is examined
+        from saml2_tophat.profile import ecp as _ecp
+        s.apply_binding(binding, msg, 'https://idp.example/soap',
+                        soap_headers=[_ecp.RelayState(actor='http://schemas.xmlsoap.org/soap/actor/next', must_understand='1', text='an-earlier-relay-state')])
     info = s.apply_binding(binding, msg, 'https://idp.example/soap', **kw)
     data = info['data']
     import defusedxml.ElementTree as DET
@@ -256,6 +261,10 @@ def check_soap(msg, msgtype, binding):
         envl = DET.fromstring(data)
     except Exception as e:
         return 'soap-envelope-not-well-formed:%s' % type(e).__name__
+    if binding == BINDING_PAOS:
+        heads = [h for c in envl if c.tag.endswith('}Header') for h in c if h.tag.endswith('}RelayState')]
+        if len(heads) != 1 or heads[0].text != 'rs<&>':
+            return 'paos-relay-state-header-altered:%r' % ([h.text for h in heads],)
     bodies = [c for c in envl if c.tag.endswith('}Body')]
     if len(bodies) != 1 or len(bodies[0]) != 1:
         return 'soap-body-shape'
